@@ -125,6 +125,26 @@ func (m *c01Monitor) step(r *Run, cur *Ledger, allowed map[string]*big.Int, slas
 			want = new(big.Int)
 		}
 		if slashLike {
+			// a slash may only take away: no pool and no pending payout may grow, and no
+			// withdrawable balance may move at all
+			for _, k := range sortedKeysAny(cur.Pools) {
+				if p, ok := m.prev.Pools[k]; ok && strings.HasSuffix(k, "/"+a) && cur.Pools[k].TotalAmount.GT(p.TotalAmount) {
+					r.Violate(m.Name(), "only-deposits-increase-the-sum", what+":pool-grew", fmt.Sprintf("%s: pool %s grew %s -> %s during a slashing step", what, k, p.TotalAmount, cur.Pools[k].TotalAmount))
+					return
+				}
+			}
+			for _, k := range cur.RecOrder {
+				if p, ok := m.prev.Records[k]; ok && p.AssetID == a && cur.Records[k].ActualCompletedAmount.GT(p.ActualCompletedAmount) {
+					r.Violate(m.Name(), "only-deposits-increase-the-sum", what+":pending-payout-grew", fmt.Sprintf("%s: amount owed by pending undelegation %s grew %s -> %s during a slashing step", what, k, p.ActualCompletedAmount, cur.Records[k].ActualCompletedAmount))
+					return
+				}
+			}
+			for _, k := range sortedKeysAny(cur.Stakers) {
+				if p, ok := m.prev.Stakers[k]; ok && strings.HasSuffix(k, "/"+a) && !cur.Stakers[k].WithdrawableAmount.Equal(p.WithdrawableAmount) {
+					r.Violate(m.Name(), "sum-changes-only-by-flows", what+":withdrawable-moved", fmt.Sprintf("%s: withdrawable balance %s moved %s -> %s during a slashing step", what, k, p.WithdrawableAmount, cur.Stakers[k].WithdrawableAmount))
+					return
+				}
+			}
 			if d.Sign() > 0 {
 				r.Violate(m.Name(), "only-deposits-increase-the-sum", what, fmt.Sprintf("%s: asset %s sum changed by %s (>0) during %s", what, a, d, r.phase))
 				return
@@ -203,6 +223,13 @@ func (m *c01Monitor) AfterTx(r *Run, ctx sdk.Context, tx *TxResult) {
 		what += ":failed"
 	}
 	m.step(r, cur, allowed, false, what)
+}
+
+// AfterDirect: a direct slash call behaves like the slashing part of BeginBlock.
+func (m *c01Monitor) AfterDirect(r *Run, ctx sdk.Context, op Op) {
+	if op.K == "kslash" {
+		m.step(r, r.Ledger(ctx), nil, true, "direct-slash")
+	}
 }
 
 func (m *c01Monitor) AfterEndBlock(r *Run, ctx sdk.Context, _ abci.ResponseEndBlock) {
